@@ -60,6 +60,15 @@ std::string seams_describe_live(size_t max_items) {
     return o;
 }
 
+// histogram of the live set by allocation site (debugging aid: VERIF_LIVE_HIST)
+std::string seams_live_histogram() {
+    std::map<uintptr_t, std::pair<size_t, size_t>> h;
+    for (auto &kv : live()) { auto &e = h[kv.second.site]; e.first++; e.second += kv.second.size; }
+    std::string o; char buf[96];
+    for (auto &kv : h) { snprintf(buf, sizeof buf, " 0x%lx:%zu:%zu", (unsigned long) kv.first, kv.second.first, kv.second.second); o += buf; }
+    return o;
+}
+
 void seams_forget_live() { live().clear(); g_seams.live_bytes = 0; g_seams.live_blocks = 0; }
 
 uint64_t g_alloc_epoch = 0;
